@@ -1,6 +1,6 @@
 """C14 — ReprCString owns one well-formed NUL-terminated buffer.
 Case format: '14 | k b b b ..'  (one constructor call per line) k: 0 ReprCString::from(&str), 1 ReprCString::from(&[u8]),
-2 ReprCStr::from(&CStr) (input cut at its first NUL first); b..: the input bytes (whole UTF-8 sequences and NULs).
+2 ReprCStr::from(&CStr) (input cut at its first NUL first), 3 ReprCString::from(String); b..: the input bytes (whole UTF-8 sequences and NULs).
 Output row: [1; 0; size freed for the original; size freed for the clone; clone reads back equal; length; read-back bytes..].
 Monitor: read-back == input up to first NUL; clone equal by ==, Hash and content; tracking allocator: every free has the size
 and alignment of its allocation (the scan-derived size must equal the allocated size), nothing leaked, no crash."""
@@ -8,7 +8,7 @@ PROP = "C14"
 PROP_V = "props/C14.v"
 HARNESS = "rt"
 SHRINK = False
-RULE = ("all sequences of length <= L over the alphabet {NUL, 'a', 'é'(2 bytes), '€'(3), '😀'(4)} x 3 constructors "
+RULE = ("all sequences of length <= L over the alphabet {NUL, 'a', 'é'(2 bytes), '€'(3), '😀'(4)} x 4 constructors (&str, &[u8], String, &CStr) "
         "(L=5 quick, 7 thorough) plus long random ones; non-trivial = contains a multi-byte sequence or a NUL; distinct by text")
 TRUSTED = [
     "hand-written model coq/model/CStr.v of cglue/src/repr_cstring.rs (scan-for-NUL length, scan-sized free); tied by differential execution",
@@ -33,7 +33,7 @@ def gen_cases(rng, tier):
     cases = []
     for s in seqs:
         b = [x for a in s for x in ALPHA[a]]
-        for k in (0, 1, 2):
+        for k in (0, 1, 2, 3):
             cases.append("14 | " + " ".join(map(str, [k] + b)))
     nrand = 300 if tier == "quick" else 5000
     for _ in range(nrand):
@@ -42,8 +42,8 @@ def gen_cases(rng, tier):
         for _ in range(n):
             a = rng.choice([1, 1, 1, 2, 3, 4]) if rng.chance(19, 20) else 0
             b += ALPHA[a]
-        cases.append("14 | " + " ".join(map(str, [rng.below(3)] + b)))
-    return cases, {"exhaustive_len": L, "exhaustive_cases": len(seqs) * 3, "random_long": nrand}
+        cases.append("14 | " + " ".join(map(str, [rng.below(4)] + b)))
+    return cases, {"exhaustive_len": L, "exhaustive_cases": len(seqs) * 4, "random_long": nrand}
 
 
 def nontrivial(l):
